@@ -772,7 +772,7 @@ def _apply_edits(pools, roots, rng, seed):
 
     for _ in range(rng.randint(2, 6)):
         try:
-            kind = rng.randrange(16)
+            kind = rng.randrange(21)
             if kind == 0 and (u := pick("User")) is not None:
                 u.name = f"edited {seed} {rng.randrange(1000)}"
                 done.append("user.name")
@@ -847,6 +847,33 @@ def _apply_edits(pools, roots, rng, seed):
                 if parent is not None and id(parent) not in protected:
                     if toggle(parent.sound_events, member):
                         done.append(f"{which}.sound_events")
+            elif kind == 16 and (ce := pick("ClipEvaluation")) is not None:
+                ce.score = rng.random()
+                if ce.metrics:
+                    f = ce.metrics[0]
+                    ce.metrics[0] = type(f)(term=f.term, value=f.value + 1.0)
+                done.append("clip_evaluation.score/metrics")
+            elif kind == 17:
+                holder = pick(rng.choice(["SequenceAnnotation", "ClipAnnotation",
+                                          "SoundEventAnnotation"]))
+                if holder is not None and toggle(holder.tags, pick("Tag")):
+                    done.append("annotation.tags")
+            elif kind == 18:
+                holder = pick(rng.choice(["ClipPrediction", "SequencePrediction",
+                                          "SoundEventPrediction"]))
+                if holder is not None and holder.tags:
+                    pt = holder.tags[0]
+                    holder.tags[0] = type(pt)(tag=pt.tag, score=rng.random())
+                    done.append("prediction.tags")
+            elif kind == 19 and (t := pick("AnnotationTask")) is not None:
+                if t.status_badges:
+                    b = t.status_badges[0]
+                    states = list(type(b.state))
+                    b.state = states[(states.index(b.state) + 1) % len(states)]
+                    done.append("badge.state")
+            elif kind == 20 and (note := pick("Note")) is not None:
+                note.created_by = pick("User") if rng.random() < 0.7 else None
+                done.append("note.created_by")
             elif kind == 15 and roots:
                 root = rng.choice(roots)
                 members = getattr(root, MEMBER_FIELD.get(_class_name(root), ""), None)
@@ -891,6 +918,10 @@ def h_touch(world, seed):
         "ClipEvaluation": w.clip_evaluations, "AnnotationTask": w.tasks,
     }
     roots = [w.roots[k] for k in sorted(w.roots)]
+    found = {}
+    _collect_models(roots, found, set())
+    for name in ("Note", "SequenceAnnotation", "SequencePrediction"):
+        pools[name] = found.get(name, [])
     done = _apply_edits(pools, roots, random.Random(seed), seed)
     return {"outcome": "ack", "edits": done}
 
@@ -1081,11 +1112,18 @@ def _dump(value, mode):
     from pydantic import BaseModel  # noqa: PLC0415
 
     if isinstance(value, BaseModel):
-        # by field name, whatever the class's serialisation defaults are:
-        # this is the input of dict / JSON *validation*, not a document
-        return value.model_dump(mode=mode, by_alias=False)
+        # every declared field by its name, nothing else: this is the input
+        # of dict / JSON *validation*, not a document, so the class's
+        # serialisation settings (aliases, excluded or computed fields) have
+        # no say in it
+        return {
+            name: _dump(getattr(value, name), mode)
+            for name in type(value).model_fields
+        }
     if isinstance(value, (list, tuple)):
         return [_dump(item, mode) for item in value]
+    if isinstance(value, dict):
+        return {k: _dump(v, mode) for k, v in value.items()}
     if mode == "json":
         if isinstance(value, uuidlib.UUID):
             return str(value)
@@ -1295,6 +1333,11 @@ def h_arrange(spec, target, doc_path, handle, base_spec=None):
     else:
         raise ValueError(cls_name)
 
+    if handle % 2 == 0:
+        # "no matches" / "no tasks" said by leaving the argument out
+        for name in ("matches", "tasks"):
+            if kwargs.get(name) == [] and not cls.model_fields[name].is_required():
+                del kwargs[name]
     out = {"outcome": "value", "paths": {}}
     v_ctor, o_ctor = _verdict(lambda: cls(**kwargs))
     out["paths"]["ctor"] = v_ctor
@@ -1363,6 +1406,21 @@ def _array_payload(arr, with_data=True):
 
 
 
+FROM_FILE = {}  # path -> the Recording that from_file returned last
+CLIPS = {}  # (id(recording), start, end) -> live Clip
+
+
+def _clip_from(rec, start, end, fresh=False):
+    """The caller's Clip object for this window: the same object when the
+    same window of the same recording is loaded again."""
+    key = (id(rec), repr(start), repr(end))
+    if not fresh and key in CLIPS:
+        return CLIPS[key]
+    clip = _data().Clip(recording=rec, start_time=start, end_time=end)
+    CLIPS[key] = clip
+    return clip
+
+
 def _recording_from(spec, fresh=False):
     """The Recording a caller holds for this file: the same live object from
     call to call (whatever a library call attached to it stays attached),
@@ -1370,6 +1428,17 @@ def _recording_from(spec, fresh=False):
     key = _jtext(spec)
     if not fresh and key in RECORDINGS:
         return RECORDINGS[key]
+    made = FROM_FILE.get(spec["path"])
+    if (
+        not fresh and made is not None
+        and (made.duration, made.samplerate, made.channels, made.time_expansion)
+        == (spec["duration"], spec["samplerate"], spec["channels"],
+            spec.get("time_expansion", 1.0))
+    ):
+        # the very object Recording.from_file returned (with its hash and
+        # whatever else from_file attached to it)
+        RECORDINGS[key] = made
+        return made
     data = _data()
     rec = data.Recording(
         uuid=uuidlib.UUID(spec["uuid"]),
@@ -1392,6 +1461,7 @@ def a_from_file(path, time_expansion=1.0, compute_hash=True):
         )
     except Exception as exc:
         return _outcome_of(exc)
+    FROM_FILE[str(path)] = rec
     return {
         "outcome": "value",
         "duration": rec.duration,
@@ -1419,7 +1489,7 @@ def a_load_clip(recording, start, end, handle, audio_dir=None, audio_as="str",
     data = _data()
     try:
         rec = _recording_from(recording, fresh)
-        clip = data.Clip(recording=rec, start_time=start, end_time=end)
+        clip = _clip_from(rec, start, end, fresh)
     except Exception as exc:
         # the data classes refuse this recording / clip: not an input
         return {**_outcome_of(exc), "outcome": "refused"}
@@ -1478,6 +1548,42 @@ def a_spectrogram(source, window_size, hop_size, handle):
         return _outcome_of(exc)
     ARRAYS[handle] = arr
     return _array_payload(arr, with_data=False)
+
+
+@register("a_chain")
+def a_chain(recording, windows, window_size, hop_size, audio_dir=None,
+            audio_as="str"):
+    """What a batch job does: for each window, load the clip and compute its
+    spectrogram inside a function; nothing is kept, so arrays are freed and
+    their memory (and id()) is reused from one iteration to the next."""
+    from soundevent import audio  # noqa: PLC0415
+
+    data = _data()
+    kwargs = _audio_kwargs(audio_dir, audio_as)
+    try:
+        rec = _recording_from(recording)
+    except Exception as exc:
+        return {**_outcome_of(exc), "outcome": "refused"}
+
+    def one(start, end):
+        wav = audio.load_clip(
+            data.Clip(recording=rec, start_time=start, end_time=end), **kwargs
+        )
+        spec = audio.compute_spectrogram(
+            wav, window_size=window_size, hop_size=hop_size
+        )
+        return _array_payload(wav, with_data=False), _array_payload(
+            spec, with_data=False
+        )
+
+    out = []
+    for start, end in windows:
+        try:
+            wav, spec = one(start, end)
+            out.append({"outcome": "value", "wav": wav, "spec": spec})
+        except Exception as exc:
+            out.append(_outcome_of(exc))
+    return {"outcome": "value", "items": out}
 
 
 @register("a_scribble")
